@@ -10,7 +10,7 @@ package gostatsd
 //@ func (PipelineHandler).DispatchEvent
 //@   trusted
 //@   modifies everything
-//@   preserves lexer.Lexer, pool.MetricPool, statsd.DatagramParser
+//@   preserves lexer.Lexer, pool.MetricPool, statsd.DatagramParser, statsd.CloudHandler
 // A completion callback of a flush (gostatsd.SendCallback) may do anything, except reach into the socket sender
 // that invokes it (ownership assumption).
 //@ functype SendCallback(errs)
@@ -427,3 +427,9 @@ package gostatsd
 //@   ensures [perm] forall k int :: off(tags) <= k && k < off(tags) + len(tags) ==> (exists m int :: off(tags) <= m && m < off(tags) + len(tags) && old(at(tags, m)) == at(tags, k))
 //@   ensures [perm] old(forall i int, j int :: off(tags) <= i && i < j && j < off(tags) + len(tags) ==> at(tags, i) != at(tags, j)) ==> (forall i int, j int :: off(tags) <= i && i < j && j < off(tags) + len(tags) ==> at(tags, i) != at(tags, j))
 //@   modifies tags[*]
+
+// Sending an event to a backend: arbitrary code that does not reach into the handler that calls it.
+//@ func (Backend).SendEvent
+//@   trusted
+//@   modifies everything
+//@   preserves statsd.BackendHandler
